@@ -647,6 +647,7 @@ func main() {
 		"schema has >= 1 property colliding with a machinery name, or >= 2 versions, or an immutable field / claim name was mutated."
 	c.Rule += " stream controller: one long-lived pair of real definition/offered reconcilers over sim handles a history of ONE XRD name (created; versions and schemas edited in place 0-2 times; deleted with CRD teardown; created again with another schema); after every step the stored CRDs go through the same oracle with the stored XRD's uid as expected controller reference."
 	c.Rule += " " + "Immutable names are also changed in letter case only."
+	c.Rule += " " + "Offered XRDs whose composite singular/listKind are renamed onto the claim names; required lists naming machinery or undeclared fields."
 	c.Assumptions = append(c.Assumptions,
 		"golden/machinery_*.json is the standard machinery schema (dumped once from schemas.go and reviewed); new machinery properties are allowed, listed ones must match exactly",
 		"the only legitimate variation of a machinery property is a `default` derived from the XRD's default*/enforced* fields",
